@@ -46,7 +46,7 @@ def run_case(case, bus, ex):
     import jax, jax.numpy as jnp
     rng = env.rng_for(*case["rs"])
     name, D, N, v = case["cls"], case["D"], case["N"], case["v"]
-    L = float(rng.choice([1.0, 2 * np.pi, 10 ** rng.uniform(-2, 2)]))
+    L = float([1.0, 2 * np.pi, 0.37, 11.0, 40.0, 10 ** rng.uniform(-2, 2)][(N + D + v + case["rs"][-1]) % 6])        # box sizes below and above 2 pi are reached deterministically
     dt = float(10 ** rng.uniform(-4, 6))
     it = zoo.make_intent(rng, name, D, N, L=L, dt=dt, variant=v)
     if rng.uniform() < 0.12 and name != "stepper.Wave":      # hostile: flip a dissipative coefficient -> must be classified outside
